@@ -90,6 +90,10 @@ func c06Gen(t *rapid.T) c06Scenario {
 		sc.Checks = append(sc.Checks, c)
 	}
 	sc.Rcpts = rapid.SliceOfNDistinct(rapid.IntRange(0, 3), 1, 3, rapid.ID[int]).Draw(t, "rcpts")
+	if rapid.IntRange(0, 3).Draw(t, "repeat_rcpt") == 0 {
+		// the client repeats one of its RCPT commands (after a refusal, or by mistake)
+		sc.Rcpts = append(sc.Rcpts, sc.Rcpts[rapid.IntRange(0, len(sc.Rcpts)-1).Draw(t, "repeated")])
+	}
 	return sc
 }
 
@@ -614,7 +618,18 @@ func c06CallLog(sc c06Scenario, got c06Outcome, accepted bool) (vs []ev.V) {
 		}
 		cnt[key{c.State, c.Stage, c.Arg}]++
 	}
+	repeated := map[string]bool{}
+	seenR := map[int]bool{}
+	for _, r := range sc.Rcpts {
+		if seenR[r] {
+			repeated[c06Rcpts[r]] = true
+		}
+		seenR[r] = true
+	}
 	for k, n := range cnt {
+		if n > 1 && k.stage == "rcpt" && repeated[k.arg] {
+			continue // the client itself named the recipient twice; a refused RCPT is examined again
+		}
 		if n > 1 {
 			return []ev.V{ev.Vf("calls:stage-seen-twice:"+k.stage, "check c%d (state %d) saw %s %q %d times in one message; calls: %v", stateCheck[k.state], k.state, k.stage, k.arg, n, got.Calls)}
 		}
